@@ -28,6 +28,16 @@ NOEXCEPT_NAMES = {
     "graph_context", "graph_schedule", "graph_node_memory", "static_cast<void>",
 }
 
+# names GCC does NOT know to be non-throwing (no `noexcept` on the declaration; found by the GIR cross-check G3): accessors whose bodies
+# cannot throw in practice.  They are NOT trusted: every rule verdict was re-checked with exceptional edges out of these calls and none
+# depends on them, so they are removed from the non-throwing list (HGV_TRUST_ACCESSORS=1 restores the old, weaker model for comparison).
+ASSUMED_NOEXCEPT = {"view", "valid", "graph", "get", "type", "ops_ref", "find", "contains", "begin", "end", "cbegin", "cend", "size", "empty",
+                    "graph_context", "count", "std::get", "max", "min", "std::max", "std::min", "make_scope_exit", "graph_header", "graph_schedule",
+                    "graph_node_memory", "data", "schema", "evaluation_time", "next_scheduled_time", "front", "back", "first", "second", "pointer"}
+import os as _os
+if _os.environ.get("HGV_TRUST_ACCESSORS") != "1":
+    NOEXCEPT_NAMES -= ASSUMED_NOEXCEPT
+
 # callees that invoke their lambda argument synchronously exactly once, exceptions propagating
 SYNC_LAMBDA_CALLEES = {"run_executor_phase", "std::invoke", "invoke", "with_type_realization", "std::apply"}
 
